@@ -2,7 +2,7 @@
 #include "common/solver.h"
 
 const char* PROPERTY = "C04";
-const int LMAX = 900;
+const int LMAX = 1600;
 const char* RULE =
     "rapidcheck byte strings decoded into a table-driven solver subclass: nx 1..4, nsun 2..6, nrhos 1..3, nscalars 0..3, all 32 switch masks "
     "(plus Set_AnyNumerics(false) over enabled terms), stepper in {rk2, rk4, rkf45, rkck, rk8pd} x {adaptive, fixed} plus msadams adaptive, "
